@@ -437,7 +437,7 @@ let run_dyn mo jo impl secs =
        let show_kv = function None -> "end" | Some (k, v) -> zout k ^ ":" ^ zout v in
        let listing l = String.concat " " (List.map (fun (k, v) -> zout k ^ ":" ^ zout v) l) in
        (* dumped state accumulators *)
-       let cur_u = ref [] and cur_levels = ref [] and cur_pgms = ref [] and have_dump = ref false in
+       let cur_u = ref [] and cur_levels = ref [] and cur_pgms = ref [] and cur_segkeys = ref [] and have_dump = ref false in
        let prev_dump = ref "" and this_dump = Buffer.create 256 in
        let after_reject = ref false in
        let flush_dump () =
@@ -447,11 +447,14 @@ let run_dyn mo jo impl secs =
               judge jo "C15" id ("invariants violated in dumped state: " ^ Buffer.contents this_dump)
                 (inv_b (zin base) (zin minl) (zin minil) (zin bufmax) (zin used) (List.rev !cur_levels) (List.rev !cur_pgms))
             | _ -> ());
+              List.iter (fun (lv, ks) ->
+                judge jo "C15" id ("the index of level " ^ zout lv ^ " is not built over that level's current keys: " ^ Buffer.contents this_dump)
+                  (pgm_keys_ok_b (List.rev !cur_levels) lv ks)) !cur_segkeys;
            if !after_reject then
              judge jo "C20" id "a rejected insert changed the container" (Buffer.contents this_dump = !prev_dump);
            after_reject := false;
            prev_dump := Buffer.contents this_dump;
-           Buffer.clear this_dump; cur_levels := []; cur_pgms := []; have_dump := false
+           Buffer.clear this_dump; cur_levels := []; cur_pgms := []; cur_segkeys := []; have_dump := false
          end in
        let parse_item t = match split_colon t with
          | [k; "x"] -> { it_key = zin k; it_val = None }
@@ -461,10 +464,19 @@ let run_dyn mo jo impl secs =
          (match toks with
           | "U" :: rest -> flush_dump (); have_dump := true; cur_u := rest; Buffer.add_string this_dump (String.concat " " toks ^ ";")
           | "V" :: lv :: items -> cur_levels := (zin lv, List.map parse_item items) :: !cur_levels; Buffer.add_string this_dump (String.concat " " toks ^ ";")
-          | "G" :: lv :: n :: nsegs :: _ -> cur_pgms := ((zin lv, zin n), zin nsegs) :: !cur_pgms; Buffer.add_string this_dump (String.concat " " toks ^ ";")
+          | "G" :: lv :: n :: nsegs :: _ :: segs ->
+            cur_pgms := ((zin lv, zin n), zin nsegs) :: !cur_pgms;
+            cur_segkeys := (zin lv, List.filter_map (fun t -> match String.split_on_char ',' t with k :: _ :: [] -> Some (zin k) | _ -> None) segs) :: !cur_segkeys;
+            Buffer.add_string this_dump (String.concat " " toks ^ ";")
           | _ -> flush_dump ());
          match toks with
-         | ["i"; "ok"] -> (match next_op () with ["I"; k; v] -> m := am_insert (zin k) (zin v) !m | _ -> ())
+         | ["i"; "ok"] -> (match next_op () with
+             | ["I"; k; v] ->
+               (* an insert of the reserved (tombstone) value must be rejected, whatever the history *)
+               if tomb <> None && v = "4294967295" then
+                 judge jo "C20" id ("insert_or_assign(" ^ k ^ ", reserved value) was accepted instead of throwing invalid_argument") false
+               else m := am_insert (zin k) (zin v) !m
+             | _ -> ())
          | ["e"; "ok"] -> (match next_op () with ["E"; k] -> m := am_erase (zin k) !m | _ -> ())
          | "x" :: op :: "throw" :: kind :: _ ->
            ignore (next_op ());
@@ -622,7 +634,21 @@ let run_cmp mo jo impl secs =
            (String.concat "" (List.mapi (fun i _ -> " " ^ (match cl_get_intercept l (zi i) with Ok v -> zout v | Err e -> err_name e)) l.cl_vals))) cp.cp_levels;
        List.iter (fun q -> match compressed_search c cp q with
          | Ok a -> pr mo "Q %s %s %s %s\n" (zout q) (zout a.a_pos) (zout a.a_lo) (zout a.a_hi)
-         | Err e -> pr mo "Q %s %s\n" (zout q) (err_name e)) queries);
+         | Err e -> pr mo "Q %s %s\n" (zout q) (err_name e)) queries;
+       (* the certificate (CmpCertDefs.cmp_cert_b, sound for ALL queries by CmpCertProofs.cmp_cert_sound) on the built index:
+          the dump compared line by line above is the implementation's, so this is the implementation's structure *)
+       let maxn = match Sys.getenv_opt "PGM_CERT_MAXN" with Some v -> int_of_string v | None -> 3000 in
+       if List.length data <= maxn && Hashtbl.mem impl id then begin
+         let ok = cmp_cert_b c data cp in
+         judge jo "C08cert" id "certificate false" ok;
+         if not ok then begin
+           judge jo "C08struct" id "structural part of the certificate false" (cmp_struct_b c data cp);
+           let rec take n = function x :: t when n > 0 -> x :: take (n - 1) t | _ -> [] in
+           match take 12 (cmp_cert_failing c data cp) with
+           | [] -> ()
+           | qs -> judge jo "C08certq" id (String.concat " " (List.map zout qs)) false
+         end
+       end);
     (match Hashtbl.find_opt impl id with
      | None -> ()
      | Some lines ->
